@@ -118,7 +118,11 @@ def to_sympy(e, ops):
         re = e["val"].split(",")[0]; a, b = re.split("/"); return sympy.Rational(int(a), int(b))
     if op == "mul": return sympy.Mul(*[to_sympy(a, ops) for a in e["args"]])
     if op == "add": return sympy.Add(*[to_sympy(a, ops) for a in e["args"]])
-    if op == "adj": return Dagger(to_sympy(e["arg"], ops))
+    if op == "adj":
+        # (SymPy's own `Dagger` of a non-integer power or an Abs of a number operator rewrites it through re/im of its *arguments* — not the expression any more;
+        # below a function leaf the adjoint is written out term by term instead: these functions of N are real)
+        if '"fnum"' in json.dumps(e["arg"]): return to_sympy(adj_expr(e["arg"]), ops)
+        return Dagger(to_sympy(e["arg"], ops))
     if op == "pow": return to_sympy(e["base"], ops) ** sympy.Integer(e["exp"])
     raise ValueError(op)
 
